@@ -47,3 +47,8 @@ def run(tier, seed, fold):
         "per_shard_env": lambda i: {"RAYON_NUM_THREADS": str(THREADS[i % len(THREADS)])},
         "per_shard_extra": lambda i: {"delays": 0 if i % 3 == 0 else 1},
     })
+    if tier == "thorough":
+        # ThreadSanitizer over the same workload (std rebuilt with -Zbuild-std, SQLite compiled with
+        # -fsanitize=thread): pool sizes 2, 4, 16, delays on
+        driver.sanitizer_run(SPEC, "tsan", tier, seed, fold, shards=9, budget_s=420, extra={"delays": 1},
+                             per_shard_env=lambda i: {"RAYON_NUM_THREADS": str([2, 4, 16][i % 3])})
